@@ -240,6 +240,7 @@ func runSeq(p *Plan) (out *sim.Outcome) {
 		out.Summary = map[string]any{"mode": "sequential", "backend": r.bname, "layers": len(p.Layers) + 1, "ops": len(p.Ops), "wide": p.Wide}
 		return out
 	}
+	var soft *sim.Violation
 	for i, op := range p.Ops {
 		r.step = i
 		var v *sim.Violation
@@ -247,6 +248,15 @@ func runSeq(p *Plan) (out *sim.Outcome) {
 			r.log.Addf("%d PANIC", i)
 			pv.Msg = fmt.Sprintf("step %d (kind %d), backend %s: %s", i, op.Kind, r.bname, pv.Msg)
 			return finish(pv)
+		}
+		if v != nil && v.Class == "seek-backwards-start-extension" {
+			// recorded finding (known_findings.json): a read-only mismatch, the run goes on so that it
+			// cannot mask anything else; reported only when nothing else fails in this run
+			out.Probes["backwards_start_extension_mismatch"]++
+			if soft == nil {
+				soft = v
+			}
+			v = nil
 		}
 		if v != nil {
 			r.log.Addf("%d VIOLATION %s", i, v.Sig)
@@ -265,7 +275,7 @@ func runSeq(p *Plan) (out *sim.Outcome) {
 		out.StateHash = sim.HashBytes(sim.HashBytes(out.StateHash, pr.k), pr.v)
 		out.StateHash = sim.HashString(out.StateHash, ";")
 	}
-	return finish(nil)
+	return finish(soft)
 }
 
 func refSeekAll(view map[string][]byte) []pair {
